@@ -6,7 +6,8 @@ import ast
 
 from ..core import Run
 from ..effects import Effects
-from ..indexing import ack_before_writeback, commit_sites, hash_ack, hash_after_commit, hashmap_readers, page_then_hashmap, remove_add_commit
+from ..indexing import ack_before_writeback, commit_sites, hashmap_readers, page_then_hashmap
+from ..indexscen import reindex_rules, writeback_rules
 from ..paths import enum_paths, first_index, is_call_to
 from ..pymodel import PyModel
 
@@ -33,10 +34,9 @@ def check(run: Run) -> None:
         run.check("C13.R1", "the advanced next-id map is on disk before the ZID is handed out", bool(w) and a >= 0 and max(w) > a, "ZIDManager.get_next", "return before persisting",
                   "get_next can return a ZID before next_ids.json holds its successor: after a crash the same ZID is handed out again", file="src/zorg/storage/sql/_zid_manager.py", node=fi.node)
     run.floor("returning paths of get_next", n, 1)
-    hash_after_commit(run, model, eff, "C13.R2")
-    hash_ack(run, model, eff, "C13.R2")
     run.rule("C13.R6", "redo is idempotent: every processed page is removed from the index before it is added (also pages that look new), and only reindex depends on the content of file_hash.json")
-    remove_add_commit(run, model, eff, "C13.R6")
+    reindex_rules(run, model, dict(order="C13.R6", ack="C13.R2", recover="C13.R6"))
+    writeback_rules(run, model, "C13.R2")
     hashmap_readers(run, model, "C13.R6")
     ack_before_writeback(run, model, eff, "C13.R3")
     page_then_hashmap(run, model, eff, "C13.R4")
